@@ -923,6 +923,25 @@ def prefix_defect_case():
     # silently taken out of element C (name prefix of Ca) instead.
 
 
+def fine_last_interface_case():
+    """fixed corpus case (seeded change C11-b): explicit MCD, closed diffusion-only column whose finest interface is the LAST one;
+    the time step needs ~16-21 sub-steps there; with too few the explicit step overshoots and the engine creates mass"""
+    cols = [("m" + e, 'TOTMOLE("%s")' % e) for e in ("Na", "Cl", "K", "N")] + [("cb", "CHARGE_BALANCE"), ("mH", 'TOTMOLE("H")'), ("mO", 'TOTMOLE("O")')]
+    sol = [""]
+    for k in range(1, 7):
+        if k <= 4:
+            sol.append("SOLUTION %d\n units mmol/kgw\n pH 7\n Na 10\n Cl 10 charge\n" % k)
+        elif k == 5:
+            sol.append("SOLUTION %d\n units mmol/kgw\n pH 7\n K 2\n N(5) 2 charge\n Na 0.1\n Cl 0.1\n" % k)
+        else:
+            sol.append("SOLUTION %d\n units mmol/kgw\n pH 7\n K 20\n N(5) 20 charge\n" % k)
+    sol.append("")
+    return dict(kind="mcd-stability", mode="mcd", n=6, ishift=0, bcf=2, bcl=2, corrd=False, lens=["1", "1", "1", "1", "0.2", "0.2"],
+                disps=["0"] * 6, diffc="0.3e-9", timest="2e8", shifts=5, soltext=sol, cols=cols, substeps="1",
+                elcols=["mNa", "mCl", "mK", "mN", "mH", "mO"], ncell_rows=[1, 2, 3, 4, 5, 6],
+                extra=" -multi_d true 1e-9 0.3 0.05 1.0\n", lattice=False, where="end")
+
+
 CHECKS = {"tracer": lambda case, res: compare_tracer_case(case, res),
           "rich-model": lambda case, res: compare_tracer_case(case, res, elcols=case["elcols"]),
           "range": check_range, "inventory": check_inventory, "exact-shift": check_exact_shift, "mcd-nmix": check_mcd_nmix}
@@ -997,6 +1016,7 @@ def run(ctx):
         c = gen_mcd_stability(rng)
         cks = ["mcd-nmix"] + (["inventory"] if c["ishift"] == 0 and c["bcf"] == 2 and c["bcl"] == 2 else [])
         sjobs.append((cks, c, "S"))
+    sjobs.append((["mcd-nmix", "inventory"], fine_last_interface_case(), "S-corpus"))
     for (_, case, pool) in jobs:
         if pool == "B":
             case["shifts"] = min(case["shifts"], 2)
@@ -1021,7 +1041,8 @@ def run(ctx):
             ctx.case([ck, slim(case)], sample=dict(check=ck, pool=pool, case=slim(case), result={k: v for k, v in r.items() if k in ("status", "nmix", "worst")}),
                      nontrivial=r["status"].startswith("ok"))
             if r["status"] in ("mismatch", "missing-rows", "engine-crash", "no-initmix-report"):
-                report(ctx, ck, case, stexts[i], {k: v for k, v in r.items() if k != "coq"})
+                report(ctx, ck, case, stexts[i], {k: v for k, v in r.items() if k != "coq"},
+                       key=("mcd-substeps-fine-last-interface:" + ck) if pool == "S-corpus" else None)
             if ck == "mcd-nmix" and r.get("coq"):
                 coq_terms[("S", i)] = coq_mcd_term(case, *r["coq"])
     for i, (checks, case, pool) in enumerate(jobs):
@@ -1086,12 +1107,14 @@ def run(ctx):
                 "one shift moved something (status ok); model comparison per cell and shift: |obs-exp| <= 1e-9*|exp| + propagated engine slack")
     ctx.trusted += ["python mirror of the Coq model (props/c11.py: mixf/mix_step/one_shift) - cross-checked inside Coq against the model on pools A and B",
                     "tolerance policy (1e-9 relative + the engine's own mass-balance acceptance sqrt(total*1e-25) per speciation) computed in python",
-                    "translator/c11_initmix.py (clang JSON AST of Phreeqc::init_mix -> Gallina leaf expressions and guard shapes; of Phreeqc::multi_D -> the strncmp name tests)",
+                    "translator/c11_initmix.py (clang JSON AST of Phreeqc::init_mix, both branches -> Gallina leaf expressions and guard shapes; of Phreeqc::multi_D -> the strncmp name tests)",
+                    "harness/c11_mcd.cpp (reads diffc_max, nmix, mcd_substeps, timest from the instance right after init_mix)",
                     "multi_D: the species fluxes (find_J) are arbitrary data in the bookkeeping theorems; only the explicit branch of fill_m_s / step 3 / the negative-total repair is modelled"]
     ctx.notes += ["floating-point rounding of the engine is not modelled; cases whose 1.5*maxmix is within 1e-9 of an integer are skipped (counted as nmix-rounding-ambiguous)",
                   "multicomponent diffusion: bookkeeping model + inventory checks; implicit diffusion and stagnant zones: inventory checks only",
                   "implicit diffusion keeps every tracked element at >= 1e-13 mol per cell (min_mol): the implicit inventory check allows 2e-13 mol x cells absolutely",
-                  "MCD runs in which the engine itself reports 'Negative concentration in MCD: added ...' are counted, not flagged"]
+                  "an inventory change is flagged also when the engine announces it ('Negative concentration in MCD: added ...'); only the 8a017ddf corpus case exempts Ca",
+                  "init_mix multi_D branch: explicit sub-step estimate modelled (diffc_max from the engine via harness/c11_mcd.cpp); implicit sub-branch only in the regenerated shape"]
 
 
 def run_replay(ctx):
